@@ -216,9 +216,17 @@ func (c10) RunCase(c *core.Ctx) {
 			fronts = append(fronts, "env")
 		}
 	}
+	if c.R.Intn(4) == 0 {
+		// the whole record behind a top-level pointer
+		n = &spec.Node{Kind: spec.Ptr, Elem: n}
+		n.Number()
+	}
 	src := n.Source()
 	for k := 0; k < 4; k++ {
 		rec := gen.GenRecord(c.R, n, 45, fo)
+		if m, ok := rec.(map[string]any); ok && n.Kind == spec.Ptr && len(m) == 0 {
+			continue // open corner: {} against a top-level Ptr(Struct)
+		}
 		for _, f := range fronts {
 			b := spec.Build(n, &spec.Hooks{FieldOrder: permutedOrder(c.R)})
 			o, env, data := frontExec(b, n, rec, f, nil, false)
@@ -257,8 +265,112 @@ func (c10) RunCase(c *core.Ctx) {
 	}
 }
 
+// c10LongSlice: positions far beyond the first few (two and three digit indices) at several depths.
+func c10LongSlice(c *core.Ctx) bool {
+	ln := []int{11, 101, 130, 1001}[c.R.Intn(4)]
+	elem := &spec.Node{Kind: spec.String, Tests: []spec.Test{{Op: spec.TMin, N: 2}}}
+	inner := sliceOf(elem)
+	root := structOf("codes", inner, "grid", sliceOf(sliceOf(&spec.Node{Kind: spec.Int, Tests: []spec.Test{{Op: spec.TGT, Arg: 0}}})))
+	root.Number()
+	codes := make([]any, ln)
+	for i := range codes {
+		codes[i] = "ok"
+		if i%10 == 0 || i == ln-1 || i == 99 || i == 100 {
+			codes[i] = "x"
+		}
+	}
+	grid := make([]any, 12)
+	for i := range grid {
+		row := make([]any, 103)
+		for j := range row {
+			row[j] = 1
+			if j == 100 || j == 9 || j == 10 {
+				row[j] = -1
+			}
+		}
+		grid[i] = row
+	}
+	data := map[string]any{"codes": codes, "grid": grid}
+	for _, mode := range []ref.Mode{ref.Parse, ref.Validate} {
+		b := spec.Build(root, nil)
+		var o *run.Outcome
+		var exp *ref.Result
+		if mode == ref.Parse {
+			o = run.Parse(b, data, nil)
+			exp = ref.Eval(root, &ref.Env{Mode: mode}, data, nil)
+		} else {
+			val := map[string]any{"Codes": codes, "Grid": grid}
+			o = run.Validate(b, val)
+			exp = ref.Eval(root, &ref.Env{Mode: mode}, nil, val)
+		}
+		c.Eval(1)
+		det := func(extra map[string]any) map[string]any {
+			extra["schema"] = root.Source()
+			extra["slice_length"] = ln
+			extra["mode"] = mode.String()
+			return extra
+		}
+		if !c10Check(c, root, o, exp, nil, "long-slice-"+mode.String(), det) {
+			return false
+		}
+	}
+	c.NonTrivial(fpf("long|%d", ln))
+	return true
+}
+
+// c10KeySpelling: two schemas over the SAME Go struct type that spell the key of an untagged field differently
+// ("email" / "Email" both name the field Email): each must report under its own spelling, in either order of use.
+func c10KeySpelling(c *core.Ctx) bool {
+	mk := func(key string) *spec.Node {
+		n := structOf(key, &spec.Node{Kind: spec.String, Mods: []spec.Mod{{Op: spec.MRequired}}, Tests: []spec.Test{{Op: spec.TMin, N: 5}}}, "age", &spec.Node{Kind: spec.Int, Tests: []spec.Test{{Op: spec.TGT, Arg: 3}}})
+		n.Fields[0].GoName = "Email"
+		n.Number()
+		return n
+	}
+	keys := []string{"email", "Email"}
+	if c.R.Bool() {
+		keys[0], keys[1] = keys[1], keys[0]
+	}
+	for round := 0; round < 2; round++ {
+		for _, key := range keys {
+			n := mk(key)
+			b := spec.Build(n, nil)
+			for _, mode := range []ref.Mode{ref.Validate, ref.Parse} {
+				var o *run.Outcome
+				var exp *ref.Result
+				if mode == ref.Validate {
+					val := map[string]any{"Email": "ab", "Age": 1}
+					o = run.Validate(b, val)
+					exp = ref.Eval(n, &ref.Env{Mode: mode}, nil, val)
+				} else {
+					data := map[string]any{key: "ab", "age": 1}
+					o = run.Parse(b, data, nil)
+					exp = ref.Eval(n, &ref.Env{Mode: mode}, data, nil)
+				}
+				c.Eval(1)
+				det := func(extra map[string]any) map[string]any {
+					extra["schema"] = n.Source()
+					extra["mode"] = mode.String()
+					extra["order_of_use"] = keys
+					return extra
+				}
+				if !c10Check(c, n, o, exp, nil, "key-spelling-"+mode.String(), det) {
+					return false
+				}
+			}
+		}
+	}
+	c.NonTrivial(fpf("spelling|%v", keys))
+	return true
+}
+
 // c10Random: random schemas of every kind through Go maps and Validate (structure + exact paths).
 func c10Random(c *core.Ctx) {
+	if c.Case%30 == 2 {
+		if !c10LongSlice(c) || !c10KeySpelling(c) {
+			return
+		}
+	}
 	n := c02Schema(c.R)
 	src := n.Source()
 	for k := 0; k < 6; k++ {
